@@ -94,7 +94,7 @@ theorem frame_same {t : Tid} {s s' : S C R W D} (h1 : s'.m = s.m) (h2 : s'.wbit 
 /-- micro-steps whose whole effect is `eff` -/
 def Instr.isEff : Instr R W D → Bool
   | .aRead _ | .aReadUnlock _ | .aWrite1 | .aWrite2 | .aTryWrite | .aWriteUnlock _ | .mLock | .mUnlock
-  | .sessRoot _ | .ret _ => false
+  | .sessRoot _ | .sessBase _ _ | .finChk _ | .ret _ => false
   | _ => true
 
 theorem exec_isEff (s : S C R W D) (t : Tid) (i : Instr R W D) (rest : List (Instr R W D))
@@ -217,6 +217,8 @@ theorem wf_not_bit (hm : Bool) (ws : WS) (i : Instr R W D) (rest : List (Instr R
       | .mLock => !hm && wf true ws rest
       | .mUnlock => hm && wf false ws rest
       | .sessRoot _ => hm && ws == .none && wf hm ws rest
+      | .sessBase _ _ => hm && ws == .none && wf hm ws rest
+      | .finChk _ => !hm && ws == .none && wf hm ws rest
       | .readRoot => hm && ws != .pre && wf hm ws rest
       | .sessRead _ => ws == .none && wf hm ws rest
       | .chkMarker _ => hm && wf hm ws rest
@@ -433,6 +435,50 @@ theorem inv1_exec (s : S C R W D) (t : Tid) (i : Instr R W D) (rest : List (Inst
       split
       · exact ⟨h1, h2, Or.inr (by simp [h2])⟩
       · exact ⟨h1, h2, h3⟩
+  | sessBase sid b =>
+    simp only [exec]
+    by_cases hws : wsOf s t = .bit
+    · rw [hws] at ht; simp [wf] at ht
+    rw [wf_not_bit _ _ _ _ hws] at ht
+    simp only [Bool.and_eq_true] at ht
+    refine ⟨?_, h.wown_bit, ?_, ?_⟩
+    · intro u
+      by_cases hu : u = t
+      · subst hu; simpa [wsOf] using ht.2
+      · refine typed_others ?_ h u hu
+        exact frame_same rfl rfl rfl (fun u hu => by simp [upd_other _ _ _ _ hu])
+    · intro hw; simp [h.excl hw]
+    · intro x hx
+      simp only [List.mem_map] at hx
+      obtain ⟨y, hy, rfl⟩ := hx
+      obtain ⟨h1, h2, h3⟩ := h.snap y hy
+      split
+      · exact ⟨h1, h2, h3⟩
+      · exact ⟨h1, h2, h3⟩
+  | finChk sid =>
+    simp only [exec]
+    by_cases hws : wsOf s t = .bit
+    · rw [hws] at ht; simp [wf] at ht
+    rw [wf_not_bit _ _ _ _ hws] at ht
+    simp only [Bool.and_eq_true, beq_iff_eq] at ht
+    have hmf : (s.m == some t) = false := by simpa using ht.1.1
+    have hwn : wsOf s t = .none := ht.1.2
+    split
+    · refine ⟨?_, h.wown_bit, h.excl, h.snap⟩
+      intro u
+      by_cases hu : u = t
+      · subst hu
+        have : wsOf { s with thr := upd s.thr u { (s.thr u) with prog := [.aReadUnlock sid, .ret .errSuperseded] } } u = wsOf s u := by
+          simp [wsOf]
+        simp only [this, upd_same, hwn]; rw [hmf]; simp [wf]
+      · refine typed_others ?_ h u hu
+        exact frame_same rfl rfl rfl (fun u hu => by simp [upd_other _ _ _ _ hu])
+    · refine ⟨?_, h.wown_bit, h.excl, h.snap⟩
+      intro u
+      by_cases hu : u = t
+      · subst hu; simpa [wsOf] using ht.2
+      · refine typed_others ?_ h u hu
+        exact frame_same rfl rfl rfl (fun u hu => by simp [upd_other _ _ _ _ hu])
   | ret r =>
     simp only [exec]
     by_cases hws : wsOf s t = .bit
